@@ -217,6 +217,30 @@ impl<C: Send + Sync + 'static> LiveServer<C> {
         rx
     }
 
+    /// Like close_async(); `snap` runs in the closing task the moment close() has returned.
+    pub fn close_async_snap<T: Send + 'static>(&mut self, snap: impl FnOnce() -> T + Send + 'static) -> std::sync::mpsc::Receiver<(Result<(), String>, T)> {
+        let (tx, rx) = std::sync::mpsc::channel();
+        let server = self.server.take().expect("close twice");
+        self.rt.spawn(async move {
+            let r = server.close().await;
+            let t = snap();
+            let _ = tx.send((r, t));
+        });
+        rx
+    }
+
+    /// Like waiter(); `snap` runs in the waiting task the moment the waiter has been released.
+    pub fn waiter_snap<T: Send + 'static>(&self, snap: impl FnOnce() -> T + Send + 'static) -> std::sync::mpsc::Receiver<(Result<(), String>, T)> {
+        let (tx, rx) = std::sync::mpsc::channel();
+        let fut = self.server().wait_for_shutdown();
+        self.rt.spawn(async move {
+            let r = fut.await;
+            let t = snap();
+            let _ = tx.send((r, t));
+        });
+        rx
+    }
+
     /// Registers a wait_for_shutdown() waiter; its result arrives on the channel.
     pub fn waiter(&self) -> std::sync::mpsc::Receiver<Result<(), String>> {
         let (tx, rx) = std::sync::mpsc::channel();
